@@ -129,7 +129,7 @@ def r16_13(prog: Program, rep):
         raise AnalysisError(f"expected >= 4 ref-file lock sites in DiskRefsContainer, found {n}")
 
 
-def _packed_probes(fnode):
+def _packed_probes(fnode, module=None):
     """Statements of a function body that refuse a name colliding with a PACKED ref: {'up': [...], 'down': [...]}.
     up   = a loop that walks the ancestors of the name (os.path.dirname) and raises when one is found in packed refs;
     down = a test / loop with startswith(<name> + b"/") over the packed names that raises."""
@@ -140,13 +140,27 @@ def _packed_probes(fnode):
         return any((isinstance(y, ast.Name) and y.id in packedish) or (isinstance(y, ast.Call) and callee_name(y) == "get_packed_refs") for y in ast.walk(node))
 
     slash = any(isinstance(y, ast.BinOp) and isinstance(y.op, ast.Add) and isinstance(y.right, ast.Constant) and y.right.value == b"/" for y in ast.walk(fnode))
+    # module-level generators that climb the ancestors of a name (a loop over os.path.dirname that yields)
+    climbers = set()
+    if module is not None:
+        for q_, f_ in module.funcs.items():
+            if f_.cls is None and "#" not in q_ and any(isinstance(y, (ast.Yield, ast.YieldFrom)) for y in ast.walk(f_.node)) \
+                    and any(isinstance(y, ast.Call) and callee_name(y) == "dirname" for y in ast.walk(f_.node)):
+                climbers.add(f_.name)
+
+    def climbs(node):
+        return any(isinstance(y, ast.Call) and (callee_name(y) == "dirname" or callee_name(y) in climbers) for y in ast.walk(node))
     out = {"up": [], "down": []}
     for x in ast.walk(fnode):
         if isinstance(x, (ast.While, ast.For)) and any(isinstance(y, ast.Raise) for y in ast.walk(x)) and mentions_packed(x):
-            if any(isinstance(y, ast.Call) and callee_name(y) == "dirname" for y in ast.walk(x)):
+            if climbs(x):
                 out["up"].append(x.test if isinstance(x, ast.While) else x.iter)
             if slash and any(isinstance(y, ast.Call) and callee_name(y) == "startswith" for y in ast.walk(x)):
                 out["down"].append(x.test if isinstance(x, ast.While) else x.iter)
+        # the same search spelled `if any(<packed lookup> for p in <ancestors of the name>): raise`
+        if isinstance(x, ast.If) and any(isinstance(y, ast.Raise) for y in x.body) and mentions_packed(x.test) and climbs(x.test) \
+                and any(isinstance(y, ast.Call) and callee_name(y) in ("any", "next") for y in ast.walk(x.test)):
+            out["up"].append(x.test)
         if isinstance(x, ast.If) and slash and any(isinstance(y, ast.Raise) for y in x.body) and mentions_packed(x.test) \
                 and any(isinstance(y, ast.Call) and callee_name(y) == "startswith" for y in ast.walk(x.test)):
             out["down"].append(x.test)
@@ -165,7 +179,7 @@ def r16_15(prog: Program, rep):
     helpers = {}
     for q, f in m.funcs.items():
         if q.startswith("DiskRefsContainer.") and "#" not in q:
-            pr = _packed_probes(f.node)
+            pr = _packed_probes(f.node, m)
             if pr["up"] or pr["down"]:
                 helpers[f.name] = pr
     n = 0
@@ -182,7 +196,7 @@ def r16_15(prog: Program, rep):
                     if any(isinstance(s_, ast.Assign) and isinstance(s_.targets[0], ast.Name) and s_.targets[0].id == c.args[0].id and isinstance(s_.value, ast.Call)
                            and callee_name(s_.value) == "refpath" for s_ in ast.walk(f.node)):
                         locks.append((i, c))
-        own = _packed_probes(f.node)
+        own = _packed_probes(f.node, m)
         for i, c in locks:
             for d, what in (("up", "an ancestor of the name that is a packed ref"), ("down", "a packed ref below the name")):
                 through = [j for e in own[d] for j in g.nodes_containing(e)]
@@ -352,7 +366,7 @@ def run(prog: Program, rep, tier="quick"):
     dm = prog.module(REFS_PY)
     n7 = 0
     probe_helpers = {f_.name for q_, f_ in dm.funcs.items() if f_.cls == "DiskRefsContainer" and "#" not in q_
-                     and any(_packed_probes(f_.node).values())}
+                     and any(_packed_probes(f_.node, dm).values())}
     for q, f in dm.funcs.items():
         if f.cls != "DiskRefsContainer" or "#" in q:
             continue
